@@ -24,11 +24,15 @@ def pictures_equal(a, b):
 
 
 def run_one(job):
+    name, kind, data = vc.make_mutant(job)
+    return run_bytes(data, name, kind, PATTERNS[job[1] % len(PATTERNS)], job[1])
+
+
+def run_bytes(data, name, kind, pattern, salt):
     from vc2_conformance.scripts import vc2_bitstream_validator as cli
     from vc2_conformance import file_format
 
-    name, kind, data = vc.make_mutant(job)
-    pattern = PATTERNS[job[1] % len(PATTERNS)]
+    job = (0, salt)
     lib = vc.guarded_validate(data, want_pictures=True)
     ev = {"ev": "cli", "lib": lib["outcome"], "exc": lib["exc"] or "", "base": name, "kind": kind, "pattern": pattern, "npics_lib": len(lib["pics"]), "exit": -1, "marker_offset": False, "marker_explain": False, "marker_hint": False, "files": [], "pairs_equal": [], "sig": ""}
     ev["offset_lib"] = -1
@@ -59,7 +63,9 @@ def run_one(job):
         def call():
             with contextlib.redirect_stdout(so), contextlib.redirect_stderr(se):
                 try:
-                    return cli.main([path, "--no-status", "--output", os.path.join(outdir, pattern)])
+                    # the status line (stderr) is on by default; two runs in three keep it on
+                    extra = ["--no-status"] if job[1] % 3 == 0 else (["--verbose"] if job[1] % 3 == 1 else [])
+                    return cli.main([path] + extra + ["--output", os.path.join(outdir, pattern)])
                 except SystemExit as e:
                     return e.code if isinstance(e.code, int) else -1
                 except Exception as e:  # noqa: an exception escaping main() is as bad as the internal-error status
@@ -118,6 +124,18 @@ def run_one(job):
     return ev
 
 
+def run_history(arg):
+    """one Validator.tla history (structured, possibly malformed stream) through the command"""
+    i, st = arg
+    data = vc.history_bytes(st["cfg"], st["hist"])
+    return run_bytes(data, "validator-history", "+".join(h["u"]["k"] for h in st["hist"]), PATTERNS[i % len(PATTERNS)], i)
+
+
+def history_chunk(text):
+    vc.install_permissive_levels()
+    return [run_history((i, st)) for i, st in enumerate(vc.parse_chunk(text)) if st["hist"]]
+
+
 def run(ctx):
     vc.install_permissive_levels()
     jobs = vc.mutant_jobs(ctx, 70, 1500)
@@ -127,9 +145,22 @@ def run(ctx):
     nb = len(corpus.base_streams())
     jobs += [(i, 50 * (1000 + p)) for i in range(nb) for p in range(len(PATTERNS))]
     outs = common.pmap(run_one, jobs)
+    # structured streams: every transition of Validator.tla for one configuration with fragments and pictures
+    from . import c01
+
+    hcfg = [{"prof": "HQ", "ver": 3, "pat": "any", "fields": False, "sx": 1}] if ctx.quick else vc.ALL_CFGS[1::8]
+    mc = vc.write_mc_module(hcfg)
+    hres = tlc.run("ValidatorMC", c01.MC_CFG, dump=True, extra_files=[mc], timeout=3000)
+    ctx.add_tlc(hres, "Validator.tla transitions (structured streams through the command)", {"Cfgs": hcfg})
+    houts = []
+    for part in common.pmap(history_chunk, vc.split_dump(hres.dump_path, 64), chunksize=1):
+        houts += part
+    nmut = len(outs)
+    outs = outs + houts
     records = [dict(ev, tid=t) for t, ev in enumerate(outs)]
-    probe = dict(records[-1], tid=len(records), exit=3)
-    probe2 = dict(records[-1], tid=len(records) + 1, files=[1] if records[-1]["npics_lib"] else [0])
+    good = next(r for r in records if r["lib"] == "accept" and r["npics_lib"] > 0 and r["exit"] == 0)
+    probe = dict(good, tid=len(records), exit=3)
+    probe2 = dict(good, tid=len(records) + 1, files=[1])
     bad, res = trace.validate("ToolOutcomeTrace", records + [probe, probe2])
     ctx.add_tlc(res, "trace validation (ToolOutcomeTrace, cli events)")
     flagged = {b["tid"]: b["clause"] for b in bad if b["alarm"]}
@@ -143,7 +174,8 @@ def run(ctx):
         if b["tid"] >= len(records) or not b["alarm"]:
             continue
         ev = records[b["tid"]]
-        ctx.violation("C25|%s|%s" % (b["clause"], ev["sig"] or ev["exc"] or ev["pattern"]), "%s: lib=%s exit=%s files=%s equal=%s pattern=%s mutant %s of %s" % (b["clause"], ev["lib"], ev["exit"], ev["files"], ev["pairs_equal"], ev["pattern"], ev["kind"], ev["base"]), {"job": list(jobs[b["tid"]])})
+        case = {"job": list(jobs[b["tid"]])} if b["tid"] < nmut else {"history_index": b["tid"] - nmut, "kind": ev["kind"]}
+        ctx.violation("C25|%s|%s" % (b["clause"], ev["sig"] or ev["exc"] or ev["pattern"]), "%s: lib=%s exit=%s files=%s equal=%s pattern=%s stream %s of %s" % (b["clause"], ev["lib"], ev["exit"], ev["files"], ev["pairs_equal"], ev["pattern"], ev["kind"], ev["base"]), case)
     acc = sum(1 for ev in records if ev["lib"] == "accept" and ev["npics_lib"] > 0)
     rej = sum(1 for ev in records if ev["lib"] == "reject")
     if acc < 10 or rej < 10:
@@ -157,6 +189,7 @@ def run(ctx):
             "exhaustive": False,
             "outcomes": counts,
             "conformant_runs_with_pictures": acc,
+            "structured_histories_from_Validator_tla": len(houts),
             "nonconformant_runs": rej,
             "patterns": PATTERNS,
             "binding_selftest": "events corrupted to exit=3 and to a wrong file index list are rejected (NeverInternalError, OnePairPerPictureNumberedFromZero)",
